@@ -1,7 +1,845 @@
-//! C32 — not built yet.
-use vcore::Ctx;
+//! C32 — connection cursors round-trip and pagination arguments are checked.
+use async_graphql::connection::{
+    self, Connection, ConnectionNameType, CursorType, DisableNodesField, Edge, EdgeNameType, EmptyFields, OpaqueCursor,
+};
+use async_graphql::{Context, EmptyMutation, EmptySubscription, Error, Object, OutputType, Request, Schema, Variables, ID};
+use serde::{Deserialize, Serialize};
+use std::cell::RefCell;
+use std::collections::BTreeMap;
+use std::sync::{Arc, Mutex};
+use std::time::Instant;
+use vcore::drive::catch;
+use vcore::gens::*;
+use vcore::{json, Case, Ctx, Src};
 
-pub fn run(_ctx: &mut Ctx) {
-    eprintln!("C32: check not built yet");
-    std::process::exit(2);
+const F1: &str = "C32-F1";
+
+/// A cursor type under test: generation, exact comparison (floats by bits, NaN by class) and rendering.
+trait Cur: CursorType + Sized + Send + Sync + 'static {
+    const NAME: &'static str;
+    fn gen(s: &mut dyn Src) -> Self;
+    fn same(&self, o: &Self) -> bool;
+    fn show(&self) -> String;
+    fn dup(&self) -> Self;
+    /// not the zero / false / empty value of the type
+    fn interesting(&self) -> bool;
+    fn special(&self) -> bool {
+        false
+    }
+}
+
+macro_rules! cur_int {
+    ($($t:ty)*) => {$(
+        impl Cur for $t {
+            const NAME: &'static str = stringify!($t);
+            fn gen(s: &mut dyn Src) -> Self {
+                match s.choose(4) {
+                    0 => s.range(0, 9) as $t,
+                    1 => *pick(s, &[<$t>::MAX, <$t>::MIN, <$t>::MAX - 1, <$t>::MIN + 1, <$t>::MAX / 2 + 1]),
+                    2 => gen_i64(s) as $t,
+                    _ => {
+                        let wide = ((s.u64() as u128) << 64) | s.u64() as u128;
+                        (wide >> s.choose(128)) as $t
+                    }
+                }
+            }
+            fn same(&self, o: &Self) -> bool { self == o }
+            fn show(&self) -> String { format!("{:?}", self) }
+            fn dup(&self) -> Self { *self }
+            fn interesting(&self) -> bool { *self != 0 }
+            fn special(&self) -> bool { *self == <$t>::MAX || *self == <$t>::MIN }
+        }
+    )*};
+}
+cur_int! { i8 i16 i32 i64 i128 isize u8 u16 u32 u64 u128 usize }
+
+macro_rules! cur_float {
+    ($t:ty, $bits:ty, $raw:expr, $name:expr) => {
+        impl Cur for $t {
+            const NAME: &'static str = $name;
+            fn gen(s: &mut dyn Src) -> Self {
+                match s.choose(8) {
+                    0 => 0.0,
+                    1 => -0.0,
+                    2 => *pick(s, &[<$t>::NAN, -<$t>::NAN, <$t>::INFINITY, <$t>::NEG_INFINITY]),
+                    3 => *pick(s, &[<$t>::MAX, <$t>::MIN, <$t>::MIN_POSITIVE, <$t>::EPSILON, 0.1, 1e21, 1e-7, 16777217.0, 0.3]),
+                    4 => s.range(-1000, 1000) as $t / 8.0,
+                    5 => <$t>::from_bits((1 as $bits) + s.choose(1000) as $bits), // subnormals
+                    _ => <$t>::from_bits($raw(s)),                               // any bit pattern (NaN payloads too)
+                }
+            }
+            fn same(&self, o: &Self) -> bool {
+                (self.is_nan() && o.is_nan()) || self.to_bits() == o.to_bits()
+            }
+            fn show(&self) -> String {
+                format!("{:?} (bits {:#x})", self, self.to_bits())
+            }
+            fn dup(&self) -> Self { *self }
+            fn interesting(&self) -> bool { self.to_bits() != 0 }
+            fn special(&self) -> bool {
+                !self.is_finite() || (*self == 0.0 && self.is_sign_negative()) || (*self != 0.0 && !self.is_normal())
+            }
+        }
+    };
+}
+cur_float!(f32, u32, |s: &mut dyn Src| s.raw(), "f32");
+cur_float!(f64, u64, |s: &mut dyn Src| s.u64(), "f64");
+
+impl Cur for char {
+    const NAME: &'static str = "char";
+    fn gen(s: &mut dyn Src) -> Self {
+        gen_char(s)
+    }
+    fn same(&self, o: &Self) -> bool {
+        self == o
+    }
+    fn show(&self) -> String {
+        format!("{:?}", self)
+    }
+    fn dup(&self) -> Self {
+        *self
+    }
+    fn interesting(&self) -> bool {
+        *self != 'a'
+    }
+    fn special(&self) -> bool {
+        !self.is_ascii_graphic()
+    }
+}
+impl Cur for bool {
+    const NAME: &'static str = "bool";
+    fn gen(s: &mut dyn Src) -> Self {
+        s.bool()
+    }
+    fn same(&self, o: &Self) -> bool {
+        self == o
+    }
+    fn show(&self) -> String {
+        format!("{:?}", self)
+    }
+    fn dup(&self) -> Self {
+        *self
+    }
+    fn interesting(&self) -> bool {
+        *self
+    }
+}
+impl Cur for String {
+    const NAME: &'static str = "String";
+    fn gen(s: &mut dyn Src) -> Self {
+        gen_string(s, 8)
+    }
+    fn same(&self, o: &Self) -> bool {
+        self == o
+    }
+    fn show(&self) -> String {
+        format!("{:?}", self)
+    }
+    fn dup(&self) -> Self {
+        self.clone()
+    }
+    fn interesting(&self) -> bool {
+        !self.is_empty()
+    }
+    fn special(&self) -> bool {
+        self.chars().any(|c| !c.is_ascii_graphic())
+    }
+}
+impl Cur for ID {
+    const NAME: &'static str = "ID";
+    fn gen(s: &mut dyn Src) -> Self {
+        ID(gen_string(s, 8))
+    }
+    fn same(&self, o: &Self) -> bool {
+        self.0 == o.0
+    }
+    fn show(&self) -> String {
+        format!("ID({:?})", self.0)
+    }
+    fn dup(&self) -> Self {
+        self.clone()
+    }
+    fn interesting(&self) -> bool {
+        !self.0.is_empty()
+    }
+    fn special(&self) -> bool {
+        self.0.chars().any(|c| !c.is_ascii_graphic())
+    }
+}
+
+/// Payload of the opaque cursors: a nested serde value that JSON represents exactly (string-keyed maps, every
+/// enum variant form, options, tuples, 64-bit integers; no floats — see the assumption in `run`).
+#[derive(Serialize, Deserialize, Clone, PartialEq, Debug)]
+struct J {
+    id: i64,
+    big: u64,
+    name: String,
+    tags: Vec<String>,
+    kind: JKind,
+    next: Option<Box<J>>,
+    attrs: BTreeMap<String, JKind>,
+    pos: (i32, bool),
+}
+#[derive(Serialize, Deserialize, Clone, PartialEq, Debug)]
+enum JKind {
+    Plain,
+    Num(i64),
+    Pair(String, u8),
+    Rec { a: bool, b: Option<String> },
+}
+fn gen_jkind(s: &mut dyn Src) -> JKind {
+    match s.choose(4) {
+        0 => JKind::Plain,
+        1 => JKind::Num(gen_i64(s)),
+        2 => JKind::Pair(gen_string(s, 4), s.choose(256) as u8),
+        _ => JKind::Rec { a: s.bool(), b: if s.bool() { Some(gen_string(s, 4)) } else { None } },
+    }
+}
+fn gen_j(s: &mut dyn Src, depth: usize) -> J {
+    J {
+        id: gen_i64(s),
+        big: match s.choose(3) {
+            0 => s.choose(10) as u64,
+            1 => u64::MAX - s.choose(3) as u64,
+            _ => s.u64(),
+        },
+        name: gen_string(s, 6),
+        tags: (0..s.choose(3)).map(|_| gen_string(s, 4)).collect(),
+        kind: gen_jkind(s),
+        next: if depth > 0 && s.chance(1, 2) { Some(Box::new(gen_j(s, depth - 1))) } else { None },
+        attrs: (0..s.choose(3)).map(|_| (gen_string(s, 4), gen_jkind(s))).collect(),
+        pos: (gen_i64(s) as i32, s.bool()),
+    }
+}
+impl Cur for OpaqueCursor<J> {
+    const NAME: &'static str = "OpaqueCursor<J>";
+    fn gen(s: &mut dyn Src) -> Self {
+        OpaqueCursor(gen_j(s, 3))
+    }
+    fn same(&self, o: &Self) -> bool {
+        self.0 == o.0
+    }
+    fn show(&self) -> String {
+        format!("Opaque({:?})", self.0)
+    }
+    fn dup(&self) -> Self {
+        OpaqueCursor(self.0.clone())
+    }
+    fn interesting(&self) -> bool {
+        true
+    }
+    fn special(&self) -> bool {
+        self.0.next.is_some()
+    }
+}
+/// a second, flat opaque payload (tuple of scalars) so that the top-level JSON value is not always an object
+impl Cur for OpaqueCursor<(i64, String, Option<bool>)> {
+    const NAME: &'static str = "OpaqueCursor<(i64,String,Option<bool>)>";
+    fn gen(s: &mut dyn Src) -> Self {
+        OpaqueCursor((gen_i64(s), gen_string(s, 6), if s.bool() { Some(s.bool()) } else { None }))
+    }
+    fn same(&self, o: &Self) -> bool {
+        self.0 == o.0
+    }
+    fn show(&self) -> String {
+        format!("Opaque({:?})", self.0)
+    }
+    fn dup(&self) -> Self {
+        OpaqueCursor(self.0.clone())
+    }
+    fn interesting(&self) -> bool {
+        true
+    }
+}
+
+/// opaque payload with floating point numbers (finite: JSON has no NaN / infinity)
+#[derive(Serialize, Deserialize, Clone, Debug)]
+struct JF {
+    w: f64,
+    inner: (i32, Vec<f64>),
+    label: Option<String>,
+}
+impl JF {
+    fn floats(&self) -> Vec<f64> {
+        std::iter::once(self.w).chain(self.inner.1.iter().copied()).collect()
+    }
+    fn same_but_floats(&self, o: &Self) -> bool {
+        self.inner.0 == o.inner.0 && self.label == o.label && self.inner.1.len() == o.inner.1.len()
+    }
+}
+impl Cur for OpaqueCursor<JF> {
+    const NAME: &'static str = "OpaqueCursor<JF>";
+    fn gen(s: &mut dyn Src) -> Self {
+        OpaqueCursor(JF {
+            w: gen_f64_finite(s),
+            inner: (gen_i64(s) as i32, (0..s.choose(3)).map(|_| gen_f64_finite(s)).collect()),
+            label: if s.bool() { Some(gen_string(s, 4)) } else { None },
+        })
+    }
+    fn same(&self, o: &Self) -> bool {
+        self.0.same_but_floats(&o.0) && self.0.floats().iter().zip(o.0.floats()).all(|(a, b)| a.to_bits() == b.to_bits())
+    }
+    fn show(&self) -> String {
+        format!("Opaque({:?})", self.0)
+    }
+    fn dup(&self) -> Self {
+        OpaqueCursor(self.0.clone())
+    }
+    fn interesting(&self) -> bool {
+        true
+    }
+    fn special(&self) -> bool {
+        self.0.floats().iter().any(|f| f.fract() != 0.0)
+    }
+}
+/// The deviation of C32-F1: nothing but floating point numbers changed, and each changed one came back as a
+/// neighbouring representable value (measured over 2M random finite f64: 8.2% one unit in the last place off,
+/// 0.05% two units, none further; up to 4 units are attributed to the finding).
+fn f1_quirk(x: &OpaqueCursor<JF>, y: &OpaqueCursor<JF>) -> bool {
+    x.0.same_but_floats(&y.0)
+        && x.0.floats().iter().zip(y.0.floats()).all(|(a, b)| {
+            let (a, b) = (a.to_bits(), b.to_bits());
+            a >> 63 == b >> 63 && a.abs_diff(b) <= 4
+        })
+}
+fn rt_opaque_float(s: &mut dyn Src, f1_open: bool) -> Case {
+    let x = <OpaqueCursor<JF> as Cur>::gen(s);
+    let c = rt_value(&x);
+    if c.is_fail() && f1_open {
+        if let Ok(y) = OpaqueCursor::<JF>::decode_cursor(&x.encode_cursor()) {
+            if f1_quirk(&x, &y) {
+                return Case::known(c.text.clone(), vec![F1.into()]).class("rt:OpaqueCursor<JF>").class("opaque-float:few-ulp-off");
+            }
+        }
+    }
+    c
+}
+
+// ---- round trip ------------------------------------------------------------------------------------------
+
+fn rt_value<C: Cur>(x: &C) -> Case {
+    let text = format!("{} {}", C::NAME, x.show());
+    let enc = x.encode_cursor();
+    let c = match C::decode_cursor(&enc) {
+        Err(e) => Case::fail(text, format!("decode_cursor({:?}) failed: {}", enc, e)),
+        Ok(y) => {
+            if y.same(x) {
+                Case::pass(text)
+            } else {
+                Case::fail(text, format!("decode_cursor(encode_cursor(x)) = {} via {:?}", y.show(), enc))
+            }
+        }
+    };
+    c.nontrivial(x.interesting()).class(format!("rt:{}", C::NAME)).class_if(x.special(), "special-value")
+}
+fn rt<C: Cur>(s: &mut dyn Src) -> Case {
+    rt_value(&C::gen(s))
+}
+
+/// text that looks like some cursor encoding, or a damaged valid encoding
+fn gen_cursor_text<C: Cur>(s: &mut dyn Src) -> String {
+    const FRAG: &[&str] = &[
+        "0", "1", "7", "9", "-", "+", ".", "e", "E", "e-", "inf", "-inf", "infinity", "Infinity", "nan", "NaN", "-NaN", "true", "false", "True",
+        " ", "\t", "\n", "_", "0x", "1_0", "٣", "１", "=", "==", "/", "-_", "eyJ", "e30", "W10", "bnVsbA", "MQ", "IiI", "a", "é", "😀", "\u{0}",
+        "340282366920938463463374607431768211455", "-170141183460469231731687303715884105728", "18446744073709551616", "1e400", "4.9e-324",
+    ];
+    if s.chance(1, 2) {
+        // damage a valid encoding
+        let mut v: Vec<char> = C::gen(s).encode_cursor().chars().collect();
+        for _ in 0..1 + s.choose(2) {
+            let at = s.choose(v.len() + 1);
+            match s.choose(4) {
+                0 if !v.is_empty() => {
+                    v.remove(at.min(v.len() - 1));
+                }
+                1 => v.insert(at, *pick(s, &['=', '+', '/', '-', '_', ' ', '0', 'A', '.', 'e', '"', '}', 'é'])),
+                2 => v.truncate(at),
+                _ if !v.is_empty() => {
+                    let i = at.min(v.len() - 1);
+                    v[i] = *pick(s, &['=', '+', '/', '-', '_', ' ', '0', 'A', 'z', '9', '"']);
+                }
+                _ => v.push('1'),
+            }
+        }
+        v.into_iter().collect()
+    } else {
+        let n = s.choose(5);
+        (0..n).map(|_| *pick(s, FRAG)).collect()
+    }
+}
+
+fn decode_any<C: Cur>(s: &mut dyn Src) -> Case {
+    let t = gen_cursor_text::<C>(s);
+    let text = format!("{}::decode_cursor({:?})", C::NAME, t);
+    let c = match catch(|| C::decode_cursor(&t).map_err(|e| e.to_string())) {
+        Err(p) => Case::fail(text, format!("panicked: {}", p)),
+        Ok(Err(_)) => Case::pass(text).class("decode:rejected"),
+        Ok(Ok(y)) => {
+            // whatever value a string decodes to is a cursor value, so it must survive its own round trip
+            let enc = y.encode_cursor();
+            let canonical = enc == t;
+            match C::decode_cursor(&enc) {
+                Ok(z) if z.same(&y) => Case::pass(text).class("decode:accepted").class_if(!canonical, "decode:accepted-non-canonical"),
+                Ok(z) => Case::fail(text, format!("decoded {} re-encodes as {:?} which decodes to {}", y.show(), enc, z.show())),
+                Err(e) => Case::fail(text, format!("decoded {} re-encodes as {:?} which does not decode: {}", y.show(), enc, e)),
+            }
+        }
+    };
+    c.nontrivial(!t.is_empty()).class(format!("decode:{}", C::NAME))
+}
+
+// ---- query_with ------------------------------------------------------------------------------------------
+
+enum Want<C> {
+    Absent,
+    Value(C),
+    Undecodable,
+}
+fn gen_cursor_arg<C: Cur>(s: &mut dyn Src) -> (Option<String>, Want<C>) {
+    match s.weighted(&[3, 4, 3]) {
+        0 => (None, Want::Absent),
+        1 => {
+            let x = C::gen(s);
+            (Some(x.encode_cursor()), Want::Value(x))
+        }
+        _ => {
+            let t = gen_cursor_text::<C>(s);
+            // "undecodable" is defined by the cursor type itself
+            match C::decode_cursor(&t) {
+                Ok(x) => (Some(t), Want::Value(x)),
+                Err(_) => (Some(t), Want::Undecodable),
+            }
+        }
+    }
+}
+fn gen_count(s: &mut dyn Src) -> Option<i32> {
+    match s.weighted(&[3, 2, 3, 1, 2, 1, 1, 1]) {
+        0 => None,
+        1 => Some(0),
+        2 => Some(s.range(1, 50) as i32),
+        3 => Some(i32::MAX),
+        4 => Some(-1),
+        5 => Some(s.range(-50, -2) as i32),
+        6 => Some(i32::MIN),
+        _ => Some(s.raw() as i32),
+    }
+}
+
+struct PageArgs<C> {
+    after: Option<String>,
+    before: Option<String>,
+    first: Option<i32>,
+    last: Option<i32>,
+    want_after: Want<C>,
+    want_before: Want<C>,
+}
+impl<C: Cur> PageArgs<C> {
+    fn gen(s: &mut dyn Src) -> Self {
+        let (after, want_after) = gen_cursor_arg::<C>(s);
+        let (before, want_before) = gen_cursor_arg::<C>(s);
+        PageArgs { after, before, first: gen_count(s), last: gen_count(s), want_after, want_before }
+    }
+    fn valid(&self) -> bool {
+        !matches!(self.want_after, Want::Undecodable)
+            && !matches!(self.want_before, Want::Undecodable)
+            && self.first.map_or(true, |f| f >= 0)
+            && self.last.map_or(true, |l| l >= 0)
+    }
+    fn show(&self) -> String {
+        format!("after={:?}, before={:?}, first={:?}, last={:?}", self.after, self.before, self.first, self.last)
+    }
+    fn classes(&self, c: Case) -> Case {
+        c.class_if(self.valid(), "args:valid")
+            .class_if(!self.valid(), "args:invalid")
+            .class_if(self.first.map_or(false, |f| f < 0), "args:negative-first")
+            .class_if(self.last.map_or(false, |f| f < 0), "args:negative-last")
+            .class_if(self.first == Some(0) || self.last == Some(0), "args:zero-count")
+            .class_if(matches!(self.want_after, Want::Undecodable), "args:undecodable-after")
+            .class_if(matches!(self.want_before, Want::Undecodable), "args:undecodable-before")
+            .class_if(self.first.is_some() && self.last.is_some() && self.valid(), "args:first+last")
+            .class_if(matches!(self.want_after, Want::Value(_)) && matches!(self.want_before, Want::Value(_)) && self.valid(), "args:after+before")
+    }
+    /// compare what the closure received with what the arguments say
+    fn check_received(&self, got: &(Option<C>, Option<C>, Option<usize>, Option<usize>)) -> Result<(), String> {
+        fn cur<C: Cur>(name: &str, want: &Want<C>, got: &Option<C>) -> Result<(), String> {
+            match (want, got) {
+                (Want::Absent, None) => Ok(()),
+                (Want::Value(w), Some(g)) if w.same(g) => Ok(()),
+                (Want::Value(w), g) => Err(format!("closure received {} = {:?}, expected {}", name, g.as_ref().map(|x| x.show()), w.show())),
+                (Want::Absent, Some(g)) => Err(format!("closure received {} = {} for an absent argument", name, g.show())),
+                (Want::Undecodable, _) => Err(format!("closure was called although {} is undecodable", name)),
+            }
+        }
+        cur("after", &self.want_after, &got.0)?;
+        cur("before", &self.want_before, &got.1)?;
+        let f = self.first.map(|x| x as usize);
+        let l = self.last.map(|x| x as usize);
+        if got.2 != f {
+            return Err(format!("closure received first = {:?}, expected {:?}", got.2, f));
+        }
+        if got.3 != l {
+            return Err(format!("closure received last = {:?}, expected {:?}", got.3, l));
+        }
+        Ok(())
+    }
+}
+
+fn query_with_case<C: Cur>(s: &mut dyn Src) -> Case
+where
+    C::Error: Send + Sync + 'static,
+{
+    let a = PageArgs::<C>::gen(s);
+    let text = format!("{}: query_with({})", C::NAME, a.show());
+    let got: RefCell<Vec<(Option<C>, Option<C>, Option<usize>, Option<usize>)>> = RefCell::new(vec![]);
+    let res: Result<u32, Error> = vcore::det::block_on(connection::query_with(
+        a.after.clone(),
+        a.before.clone(),
+        a.first,
+        a.last,
+        |after: Option<C>, before: Option<C>, first, last| {
+            got.borrow_mut().push((after, before, first, last));
+            async { Ok::<u32, Error>(7) }
+        },
+    ));
+    let got = got.into_inner();
+    let c = if a.valid() {
+        match got.as_slice() {
+            [] => Case::fail(text, format!("arguments are valid but the closure was not called (result {:?})", res.map_err(|e| e.message))),
+            [g] => match a.check_received(g) {
+                Ok(()) => Case::pass(text),
+                Err(e) => Case::fail(text, e),
+            },
+            _ => Case::fail(text, "closure called more than once"),
+        }
+    } else if !got.is_empty() {
+        Case::fail(text, "arguments are invalid but the page-fetching closure was called")
+    } else if res.is_ok() {
+        Case::fail(text, "arguments are invalid but query_with returned Ok")
+    } else {
+        Case::pass(text)
+    };
+    a.classes(c).nontrivial(a.after.is_some() || a.before.is_some() || a.first.is_some() || a.last.is_some()).class(format!("query_with:{}", C::NAME))
+}
+
+// ---- executed connection fields ----------------------------------------------------------------------------
+
+struct World<C> {
+    edges: Vec<(C, i32)>,
+    prev: bool,
+    next: bool,
+    log: Mutex<Vec<(Option<C>, Option<C>, Option<usize>, Option<usize>)>>,
+}
+
+struct AltConn;
+impl ConnectionNameType for AltConn {
+    fn type_name<T: OutputType>() -> String {
+        "PlainConnection".to_string()
+    }
+}
+struct AltEdge;
+impl EdgeNameType for AltEdge {
+    fn type_name<T: OutputType>() -> String {
+        "PlainEdge".to_string()
+    }
+}
+
+macro_rules! conn_schema {
+    ($m:ident, $c:ty) => {
+        mod $m {
+            use super::*;
+            pub struct Q;
+            #[Object]
+            impl Q {
+                /// default connection type (with the `nodes` field)
+                async fn items(
+                    &self,
+                    ctx: &Context<'_>,
+                    after: Option<String>,
+                    before: Option<String>,
+                    first: Option<i32>,
+                    last: Option<i32>,
+                ) -> async_graphql::Result<Connection<$c, i32>> {
+                    let w = ctx.data_unchecked::<Arc<World<$c>>>().clone();
+                    connection::query(after, before, first, last, |a, b, f, l| async move {
+                        w.log.lock().unwrap().push((a, b, f, l));
+                        let mut c = Connection::new(w.prev, w.next);
+                        c.edges.extend(w.edges.iter().map(|(cur, n)| Edge::new(cur.dup(), *n)));
+                        Ok::<_, Error>(c)
+                    })
+                    .await
+                }
+                /// connection type without the `nodes` field (a separate implementation of `pageInfo`)
+                async fn plain(
+                    &self,
+                    ctx: &Context<'_>,
+                    after: Option<String>,
+                    before: Option<String>,
+                    first: Option<i32>,
+                    last: Option<i32>,
+                ) -> async_graphql::Result<Connection<$c, i32, EmptyFields, EmptyFields, AltConn, AltEdge, DisableNodesField>> {
+                    let w = ctx.data_unchecked::<Arc<World<$c>>>().clone();
+                    connection::query(after, before, first, last, |a, b, f, l| async move {
+                        w.log.lock().unwrap().push((a, b, f, l));
+                        let mut c = Connection::new(w.prev, w.next);
+                        c.edges.extend(w.edges.iter().map(|(cur, n)| Edge::new(cur.dup(), *n)));
+                        Ok::<_, Error>(c)
+                    })
+                    .await
+                }
+            }
+            pub fn schema() -> Schema<Q, EmptyMutation, EmptySubscription> {
+                Schema::new(Q, EmptyMutation, EmptySubscription)
+            }
+        }
+    };
+}
+conn_schema!(s_i32, i32);
+conn_schema!(s_u64, u64);
+conn_schema!(s_f64, f64);
+conn_schema!(s_char, char);
+conn_schema!(s_bool, bool);
+conn_schema!(s_string, String);
+conn_schema!(s_id, ID);
+conn_schema!(s_opaque, OpaqueCursor<J>);
+
+const DOC_ITEMS: &str = "query($a:String,$b:String,$f:Int,$l:Int){ c: items(after:$a,before:$b,first:$f,last:$l){ \
+    pageInfo{ startCursor endCursor } edges{ cursor node } nodes } }";
+const DOC_PLAIN: &str = "query($a:String,$b:String,$f:Int,$l:Int){ c: plain(after:$a,before:$b,first:$f,last:$l){ \
+    pageInfo{ startCursor endCursor } edges{ cursor node } } }";
+
+fn executed_case<C: Cur>(s: &mut dyn Src, schema: &dyn Fn(Request) -> async_graphql::Response) -> Case {
+    let plain = s.bool();
+    let n_edges = s.choose(6);
+    let edges: Vec<(C, i32)> = (0..n_edges).map(|i| (C::gen(s), i as i32 * 10 + s.choose(10) as i32)).collect();
+    // mostly valid arguments here (the argument classes have their own stream); invalid ones must leave the log empty
+    let a = if s.chance(1, 3) {
+        PageArgs::<C>::gen(s)
+    } else {
+        PageArgs { after: None, before: None, first: if s.bool() { Some(s.choose(20) as i32) } else { None }, last: None, want_after: Want::Absent, want_before: Want::Absent }
+    };
+    let world = Arc::new(World { edges, prev: s.bool(), next: s.bool(), log: Mutex::new(vec![]) });
+    let text = format!(
+        "{} field={} edges=[{}] args({})",
+        C::NAME,
+        if plain { "plain" } else { "items" },
+        world.edges.iter().map(|(c, n)| format!("{}→{}", c.show(), n)).collect::<Vec<_>>().join(", "),
+        a.show()
+    );
+    let req = Request::new(if plain { DOC_PLAIN } else { DOC_ITEMS })
+        .variables(Variables::from_json(json!({"a": a.after, "b": a.before, "f": a.first, "l": a.last})))
+        .data(world.clone());
+    let resp = schema(req);
+    let log = std::mem::take(&mut *world.log.lock().unwrap());
+    let verdict = (|| -> Result<(), String> {
+        if !a.valid() {
+            if !log.is_empty() {
+                return Err("arguments are invalid but the page-fetching closure was called".into());
+            }
+            if resp.errors.is_empty() {
+                return Err("arguments are invalid but the response carries no error".into());
+            }
+            return Ok(());
+        }
+        if !resp.errors.is_empty() {
+            return Err(format!("valid arguments but errors: {:?}", resp.errors.iter().map(|e| e.message.clone()).collect::<Vec<_>>()));
+        }
+        match log.as_slice() {
+            [g] => a.check_received(g)?,
+            l => return Err(format!("closure called {} times", l.len())),
+        }
+        let data = resp.data.into_json().map_err(|e| e.to_string())?;
+        let c = &data["c"];
+        let enc: Vec<String> = world.edges.iter().map(|(c, _)| c.encode_cursor()).collect();
+        let want_start = enc.first().map(|x| json!(x)).unwrap_or(json!(null));
+        let want_end = enc.last().map(|x| json!(x)).unwrap_or(json!(null));
+        if c["pageInfo"]["startCursor"] != want_start {
+            return Err(format!("startCursor = {} but the first edge's cursor encodes as {}", c["pageInfo"]["startCursor"], want_start));
+        }
+        if c["pageInfo"]["endCursor"] != want_end {
+            return Err(format!("endCursor = {} but the last edge's cursor encodes as {}", c["pageInfo"]["endCursor"], want_end));
+        }
+        let got_edges = c["edges"].as_array().ok_or("edges is not a list")?;
+        if got_edges.len() != enc.len() {
+            return Err(format!("{} edges returned, {} built", got_edges.len(), enc.len()));
+        }
+        for (i, e) in got_edges.iter().enumerate() {
+            if e["cursor"] != json!(enc[i]) || e["node"] != json!(world.edges[i].1) {
+                return Err(format!("edge {} is {} but was built as cursor {:?} node {}", i, e, enc[i], world.edges[i].1));
+            }
+            // the cursor a client reads must lead back to the edge's cursor value
+            match C::decode_cursor(e["cursor"].as_str().unwrap_or("")) {
+                Ok(x) if x.same(&world.edges[i].0) => {}
+                _ => return Err(format!("edge {} cursor {} does not decode to {}", i, e["cursor"], world.edges[i].0.show())),
+            }
+        }
+        Ok(())
+    })();
+    let c = match verdict {
+        Ok(()) => Case::pass(text),
+        Err(e) => Case::fail(text, e),
+    };
+    a.classes(c)
+        .nontrivial(n_edges >= 1)
+        .class(format!("executed:{}", C::NAME))
+        .class(format!("edges:{}", n_edges.min(2)))
+        .class_if(plain, "executed:without-nodes-field")
+        .class_if(!plain, "executed:with-nodes-field")
+}
+
+macro_rules! for_all_cursor_types {
+    ($mac:ident) => {
+        $mac!(i8); $mac!(i16); $mac!(i32); $mac!(i64); $mac!(i128); $mac!(isize);
+        $mac!(u8); $mac!(u16); $mac!(u32); $mac!(u64); $mac!(u128); $mac!(usize);
+        $mac!(f32); $mac!(f64); $mac!(char); $mac!(bool); $mac!(String); $mac!(ID);
+        $mac!(OpaqueCursor<J>); $mac!(OpaqueCursor<(i64, String, Option<bool>)>);
+    };
+}
+
+pub fn run(ctx: &mut Ctx) {
+    ctx.rule = "cursor values of all 20 CursorType impls built without optional features (12 integer types, f32/f64 over every bit pattern class, char, bool, \
+                String, ID, two OpaqueCursor payloads), cursor texts (fragments of number / boolean / base64 syntax and damaged valid encodings), \
+                pagination argument tuples over {absent, valid, undecodable} x {absent, 0, positive, negative}, and executed connection fields with 0-5 edges; \
+                non-trivial = cursor value is not the type's zero/false/empty value, cursor text is non-empty, at least one pagination argument is given, \
+                or the connection has at least one edge; distinct by rendered case"
+        .into();
+    ctx.assume("NaN cursors are compared by class (any NaN for any NaN); all other floats by bit pattern, so -0.0 must come back as -0.0");
+    ctx.assume("OpaqueCursor payloads are JSON-representable: string-keyed maps, integers of the full i64/u64 range, finite floats (JSON has no NaN / infinity); payload J has no floats, payload JF has (finding C32-F1)");
+    ctx.assume("a cursor string is 'undecodable' iff the cursor type's decode_cursor returns Err for it; a string that decodes is passed on as the decoded value");
+    ctx.assume("which error is reported when several arguments are invalid is not specified (any error is accepted); first and last given together with valid values is the 'otherwise' branch of the statement: the closure must be called with both");
+    ctx.assume("the value returned for valid arguments (the closure's own result) is not judged, only that the closure ran exactly once with the decoded arguments; hasPreviousPage/hasNextPage are not judged");
+    ctx.assume("feature-gated cursor types (chrono, jiff, uuid) are not built in this harness");
+    let n = ctx.tier.pick(24_000u32, 800_000);
+
+    // bounded-exhaustive part: every value of the 8/16-bit integers, bool, and every Unicode scalar value
+    {
+        let t0 = Instant::now();
+        let mut count = 0u64;
+        macro_rules! all_of {
+            ($t:ty) => {
+                for x in <$t>::MIN..=<$t>::MAX {
+                    count += 1;
+                    if ctx.check_case("exhaustive", rt_value(&x), json!({"type": stringify!($t), "value": x.to_string()})) {
+                        return;
+                    }
+                }
+            };
+        }
+        all_of!(i8);
+        all_of!(u8);
+        all_of!(i16);
+        all_of!(u16);
+        for x in [false, true] {
+            count += 1;
+            if ctx.check_case("exhaustive", rt_value(&x), json!({"type": "bool", "value": x})) {
+                return;
+            }
+        }
+        let step = ctx.tier.pick(7u32, 1);
+        let mut cp = 0u32;
+        while cp <= 0x10ffff {
+            if let Some(ch) = char::from_u32(cp) {
+                count += 1;
+                if ctx.check_case("exhaustive", rt_value(&ch), json!({"type": "char", "codepoint": cp})) {
+                    return;
+                }
+            }
+            cp += if cp < 0x3000 { 1 } else { step };
+        }
+        let complete = step == 1;
+        ctx.enumerated("exhaustive", count, complete, t0);
+        ctx.note("exhaustive_domain", json!(format!("all i8/u8/i16/u16/bool values; char: all below U+3000 and every {}th scalar value above", step)));
+    }
+
+    macro_rules! rt_stream {
+        ($t:ty) => {
+            ctx.stream(&format!("roundtrip-{}", <$t as Cur>::NAME), 3 * n, 64, |s| rt::<$t>(s));
+            if ctx.violations() > 0 {
+                return;
+            }
+        };
+    }
+    for_all_cursor_types!(rt_stream);
+    // opaque payloads with floats: finding C32-F1. While it is open the type stays out of the other streams
+    // (payload J carries no floats) and this stream is its probe; once fixed it is an ordinary strict stream.
+    let f1_open = ctx.open(F1);
+    {
+        let w = OpaqueCursor(JF { w: 3.779701543671934e-279, inner: (0, vec![]), label: None });
+        let mut c = rt_value(&w);
+        if c.is_fail() && f1_open && OpaqueCursor::<JF>::decode_cursor(&w.encode_cursor()).map_or(false, |y| f1_quirk(&w, &y)) {
+            c = Case::known(c.text.clone(), vec![F1.into()]);
+        }
+        if ctx.check_case("probe-opaque-float", c, json!({"witness": "OpaqueCursor(JF{w: 3.779701543671934e-279, ..})"})) {
+            return;
+        }
+    }
+    ctx.stream("probe-opaque-float", 3 * n, 64, |s| rt_opaque_float(s, f1_open));
+    if f1_open {
+        ctx.excluded(F1);
+    }
+    if ctx.violations() > 0 {
+        return;
+    }
+
+    macro_rules! dec_stream {
+        ($t:ty) => {
+            ctx.stream(&format!("decode-{}", <$t as Cur>::NAME), 2 * n, 64, |s| decode_any::<$t>(s));
+            if ctx.violations() > 0 {
+                return;
+            }
+        };
+    }
+    for_all_cursor_types!(dec_stream);
+
+    macro_rules! qw_stream {
+        ($t:ty) => {
+            ctx.stream(&format!("query_with-{}", <$t as Cur>::NAME), 3 * n, 96, |s| query_with_case::<$t>(s));
+            if ctx.violations() > 0 {
+                return;
+            }
+        };
+    }
+    qw_stream!(i32);
+    qw_stream!(u8);
+    qw_stream!(i128);
+    qw_stream!(f64);
+    qw_stream!(char);
+    qw_stream!(bool);
+    qw_stream!(String);
+    qw_stream!(ID);
+    qw_stream!(OpaqueCursor<J>);
+
+    macro_rules! exec_stream {
+        ($m:ident, $t:ty) => {
+            let schema = $m::schema();
+            let exec = |req: Request| vcore::det::block_on(schema.execute(req));
+            ctx.stream(&format!("executed-{}", <$t as Cur>::NAME), n / 2, 160, |s| executed_case::<$t>(s, &exec));
+            if ctx.violations() > 0 {
+                return;
+            }
+        };
+    }
+    exec_stream!(s_i32, i32);
+    exec_stream!(s_u64, u64);
+    exec_stream!(s_f64, f64);
+    exec_stream!(s_char, char);
+    exec_stream!(s_bool, bool);
+    exec_stream!(s_string, String);
+    exec_stream!(s_id, ID);
+    exec_stream!(s_opaque, OpaqueCursor<J>);
+
+    ctx.floor("special-value", 2_000);
+    ctx.floor("decode:accepted-non-canonical", 200);
+    ctx.floor("decode:rejected", 5_000);
+    ctx.floor("args:valid", 3_000);
+    ctx.floor("args:negative-first", 1_000);
+    ctx.floor("args:negative-last", 1_000);
+    ctx.floor("args:zero-count", 1_000);
+    ctx.floor("args:undecodable-after", 500);
+    ctx.floor("args:undecodable-before", 500);
+    ctx.floor("args:first+last", 500);
+    ctx.floor("executed:without-nodes-field", 2_000);
+    ctx.floor("executed:with-nodes-field", 2_000);
+    ctx.floor("edges:0", 500);
+    ctx.floor("edges:1", 500);
+    ctx.floor("edges:2", 2_000);
 }
